@@ -166,6 +166,7 @@ for F in range(32):
     quick = F in (0, 1, 2, 3, 8, 9, 6, 16, 24)
     h("c11_simultaneous_dial_f%02d" % F, "engine_state::c11_simultaneous_dial::<S, %d>" % F, ["C11"], "quick" if quick else "thorough",
       unwind=4, unwindset=UW_C11, stubs=C11_STUBS, family="c11_simultaneous_dial")
+h("c11_crossing_failed_dial", "engine_state::c11_crossing_failed_dial::<S>", ["C11"], "quick", unwind=4, unwindset=UW_C11, stubs=C11_STUBS, family="c11_crossing_failed_dial")
 h("c11_scheduler_k4", "engine_state::c11_scheduler::<S, 4>", ["C11"], "thorough", unwind=6, unwindset=UW_C11,
   stubs=C11_STUBS, family="c11_scheduler", mem_gb=24)
 
@@ -385,3 +386,44 @@ META["C02"] = dict(
     outside="longer prefixes/keys (the code is length-uniform beyond the last byte); histories (one-step law + induction on paper)",
     assumptions=COMMON_ASSUMPTIONS + ["redb's tuple comparison equals Rust's lexicographic tuple order (validated by the redb model differential test)"],
 )
+
+
+# ---- third build session: what the evidence says about functions / bounds / outside for the properties that gained queries
+def _meta_add(p, functions=None, bounds=None, outside=None, assumptions=None):
+    m = META[p]
+    if functions:
+        m["functions"] = list(m["functions"]) + functions
+    if bounds:
+        m["bounds"] = m["bounds"] + "; " + bounds
+    if outside is not None:
+        m["outside"] = outside
+    if assumptions:
+        m["assumptions"] = list(m["assumptions"]) + assumptions
+
+
+_meta_add("C01",
+          functions=["ranger::Store::process_message::{closure#0} run from bb0 to its return (queries pm_fingerprint_reply, pm_item_reply) with {closure#0} (diff filter), {closure#0}::{closure#0} (any predicate), {closure#1..#2, #4} and their async blocks (content status), {closure#3} (pivot) and its three adaptors",
+                     "ranger::Range::{x, y, is_all}", "store::fs::StoreInstance::{get_fingerprint, get_range, get_first} (queries c08_*)"],
+          bounds="reply queries: every ORDER TYPE of (stored keys, x, y, received keys) with K <= 3 stored entries (thorough 4), split_factor 2..3 (thorough 4), <= 2 received values (K <= 2, thorough 3), max_set_size / key positions / probe key / value comparisons / fingerprints symbolic",
+          outside="whole sessions (one message part per run; the store does not change while a fingerprint part is answered, put answers symbolically for item parts; sessions by induction on paper, sampled natively by witness c01session); an exact partition of the range is not required (redundant reply ranges cost traffic only); the file-backed store; larger sets",
+          assumptions=["the generic store is modelled as the reference ordered map (get_range = the entries whose key lies in the range, in key order; get_fingerprint uninterpreted); Vec / iterators / FuturesOrdered are sequences; the content-status callback is an uninterpreted function of the entry",
+                       "the code is generic over the key type and uses keys only through Ord / Eq / Clone, so the order type determines its control flow; every comparison taken concretely is re-proved from the order type by z3 + cvc5"])
+_meta_add("C02",
+          functions=["store::fs::StoreInstance::remove_prefix_filtered, its {closure#0} (transaction) and {closure#0}::{closure#0} (row adaptor) (query c02_remove_prefix)", "sync::Replica::insert::{closure#0}, sync::Replica::delete_prefix::{closure#0} (query local_writes)"],
+          bounds="remove_prefix_filtered: K <= 3 rows inside the bounds, the predicate's answers symbolic; local writes: all paths (open / closed, with / without the write secret, length 0 / EMPTY hash)")
+_meta_add("C05", functions=["store::util::<impl From<&Query> for IndexKind>::from, store::fs::query::QueryIterator::new (query c05_query_new)"], bounds="c05_query_new: 18 query shapes (kind x author filter x key filter), author and key symbolic")
+_meta_add("C07", functions=["sync::Replica::insert / delete_prefix coroutines (query local_writes): no entry without the write secret"])
+_meta_add("C08", functions=["store::fs::StoreInstance::{get_fingerprint, get_first, remove_prefix_filtered} (queries c08_get_fingerprint, c08_get_first, c02_remove_prefix)"], bounds="K <= 3 rows per scan (one may be a storage error)")
+_meta_add("C12", functions=["sync::Subscribers::{send, send_with, subscribe, unsubscribe} with send's async closure and unsubscribe's retain predicate (query c12_subscribers)"],
+          bounds="K <= 3 subscribers (thorough 4), each receiver alive or dropped",
+          outside="the actor's acknowledgement ordering (threads); async_channel itself (send answers delivered / closed)")
+_meta_add("C14", functions=["actor::OpenReplicas::{get_mut, ensure_open, is_open, replica, replica_if_syncing}", "every closure / async closure / async block of actor::Actor::on_replica_action (18 bodies, found by name)", "actor::Actor::close", "store::fs::Store::{tables, modify_impl} (query c06_txn_glue: a failing request keeps the open transaction)"],
+          bounds="all paths of each accessor / handler body (document present or absent, sync flag, every accessor succeeding or failing, every await Ready)",
+          outside="the HashMap itself (get_mut / contains_key / entry modelled); reply ordering, concurrent clients, shutdown hand-back (threads): a request queued behind Shutdown is never answered (seen, not decided)")
+_meta_add("C16", functions=["store::fs::ContentHashesIterator::{all, next}, store::fs::Store::content_hashes (query c16_content_hashes)", "store::fs::Store::{load_replica_info, open_replica, close_replica, remove_replica} (query c16_open_guard)"],
+          bounds="content_hashes: K <= 3 rows (one may be a storage error); open guard: all paths")
+_meta_add("C06", functions=["store::fs::Store::modify_impl: the transaction slot after the caller's closure (Ok or Err)"], bounds="plus: durability-weakening calls on the shared transaction are flagged")
+_meta_add("C03", functions=["MIR data flow of the clock value into validate_entry in Replica::sync_process_message::{closure#0} and Replica::insert_entry::{closure#0}"])
+_meta_add("C10", functions=["net::codec::<impl Decoder for SyncCodec>::decode (assertions as obligations: query c09_frame_decode)"],
+          outside="net::handle_connection / connect_and_sync (QUIC streams, tracing spans): seed r4_c10_c is missed there; healthy-actor sessions end to end (threads): sampled natively by witness c10steps")
+_meta_add("C13", functions=["store::fs::migrations::migration_001_populate_latest_table (query c18_heads_rebuild, shared with C18)"])
